@@ -34,7 +34,9 @@ theorem tail_root {X : Forest} {c : Nat} {t : HTree} {q : Nat} {vq : Value} {A :
     have s' : SiteAt X q vq (P ++ k :: Q) := hPQ ▸ sq
     exact s'.getKid
   have F := far_root (keep := Keep.earlier) hgc hroot sq hq
-  refine ⟨hgc, rfl, sY, hnotin, ?_, fun _ => Forest.prevSibling_of_ctx sq.ctx,
+  refine ⟨hgc, rfl, sY, hnotin, ?_,
+    fun _ => selfPrev_prevOf (fun k hk => hnotin k (List.mem_append_left _ hk))
+      (Forest.prevSibling_of_ctx sq.ctx),
     fun k hk => Forest.textOf_of_get (hgetk k hk), ?_⟩
   · rw [Forest.checkedInsertBefore_ok hgc sq hq hrc, Forest.parent?_of_no_ctx hroot,
       Forest.placeBefore_of_ctx t sY.nd sY.ctx]
@@ -125,8 +127,13 @@ theorem tail_kid {X : Forest} {po q : Nat} {vo vq : Value} {l : List HTree} {t :
     rw [hφ.handle] at hctx
     rw [Forest.placeBefore_of_ctx t sY.nd hctx]
   · intro _
-    rw [hφ.handle, prevOf_map hφ]
-    exact Forest.prevSibling_of_ctx sq.ctx
+    apply selfPrev_prevOf
+    · intro k' hk'
+      obtain ⟨k, hk, e⟩ := hmem k' (List.mem_append_left _ hk')
+      rw [← e, hφ.handle]
+      exact hnotin0 k hk
+    · rw [hφ.handle, prevOf_map hφ]
+      exact Forest.prevSibling_of_ctx sq.ctx
   · intro k' hk'
     obtain ⟨k, hk, e⟩ := hmem k' hk'
     rw [← e, hφ.handle, textData_map hφ]
@@ -145,7 +152,7 @@ theorem tail_same {X : Forest} {q : Nat} {vq : Value} {l1 : List HTree} {t : HTr
     (sX : SiteAt X q vq (l1 ++ t :: r1)) (hAB : l1 ++ r1 = A ++ kr :: B)
     (hleafT : t.value.isText = true → t.kids = [])
     (hleaf : ∀ k ∈ l1 ++ r1, k.value.isText = true → k.kids = [])
-    (hprev : t.value.isText = true → X.prevSibling kr.handle = prevOf A kr) :
+    (hprev : t.value.isText = true → X.selfPrev t.handle (X.prevSibling kr.handle) = prevOf A kr) :
     Tail X (X.editAt (some q) (dropTop t.handle)) t.handle t q vq A kr B := by
   have nd := sX.nd
   obtain ⟨ndL, hqL⟩ := sX.nodupKids
